@@ -1,5 +1,211 @@
-(** C08 — proofs about the lexer model (in progress). *)
+(** C08 — proofs about the lexer model (the current code: fx_esc = fx_pos = true). *)
 From Coq Require Import ZArith List Bool Arith Lia.
 From ErgV Require Import Lexer.Model Lexer.Spec.
 Import ListNotations.
 Open Scope Z_scope.
+
+(* ------------------------------------------------------------------ lists / positions *)
+Fixpoint since_nl (p : list Z) : Z :=
+  match p with
+  | [] => 0
+  | c :: r => if c =? 10 then 0 else 1 + since_nl r
+  end.
+
+Lemma zlen_nonneg l : 0 <= zlen l.
+Proof. unfold zlen; lia. Qed.
+Lemma zlen_cons c (l : list Z) : zlen (c :: l) = zlen l + 1.
+Proof. unfold zlen; cbn [length]; lia. Qed.
+Lemma zlen_app (a b : list Z) : zlen (a ++ b) = zlen a + zlen b.
+Proof. unfold zlen; rewrite app_length; lia. Qed.
+Lemma zlen_nil : zlen (@nil Z) = 0.
+Proof. reflexivity. Qed.
+Lemma zlen_rev (a : list Z) : zlen (rev a) = zlen a.
+Proof. unfold zlen; now rewrite rev_length. Qed.
+
+Lemma since_nl_bounds p : 0 <= since_nl p <= zlen p.
+Proof.
+  induction p as [|c r IH]; cbn [since_nl].
+  - rewrite zlen_nil; lia.
+  - rewrite zlen_cons. destruct (c =? 10); lia.
+Qed.
+
+Lemma count_nl_nonneg p : 0 <= count_nl p.
+Proof. induction p as [|c r IH]; cbn [count_nl]; [lia|]. destruct (c =? 10); lia. Qed.
+
+Lemma pos_scan_0 l ln cl : pos_scan l 0 ln cl = (ln, cl).
+Proof. destruct l; reflexivity. Qed.
+
+Lemma pos_scan_split a : forall l k ln cl,
+  pos_scan (a ++ l) (length a + k) ln cl =
+  pos_scan l k (fst (pos_scan (a ++ l) (length a) ln cl)) (snd (pos_scan (a ++ l) (length a) ln cl)).
+Proof.
+  induction a as [|c r IH]; intros l k ln cl.
+  - cbn [app length plus]. destruct l; destruct k; reflexivity.
+  - cbn [app length plus pos_scan]. destruct (c =? 10); apply IH.
+Qed.
+
+(** scanning the consumed prefix [rev p] lands on (1 + #newlines, #chars since the last newline) *)
+Lemma pos_scan_pre p : forall post,
+  pos_scan (rev p ++ post) (length p) 1 0 = (1 + count_nl p, since_nl p).
+Proof.
+  induction p as [|c r IH]; intros post; [destruct post; reflexivity|].
+  cbn [rev length]. rewrite <- app_assoc.
+  replace (S (length r)) with (length (rev r) + 1)%nat by (rewrite rev_length; lia).
+  rewrite pos_scan_split. rewrite rev_length, IH. cbn [fst snd app pos_scan count_nl since_nl].
+  destruct (c =? 10); rewrite pos_scan_0; f_equal; lia.
+Qed.
+
+Lemma pos_of_pre p post : pos_of (rev p ++ post) (zlen p) = (1 + count_nl p, since_nl p).
+Proof. unfold pos_of, zlen. rewrite Nat2Z.id. apply pos_scan_pre. Qed.
+
+(* ------------------------------------------------------------------ weakest preconditions *)
+Definition wp {A} (m : M A) (Q : A -> lstate -> Prop) (st : lstate) : Prop :=
+  match m st with Ok (a, st') => Q a st' | Panic => False | Fuel => False end.
+
+Lemma wp_bind {A B} (m : M A) (f : A -> M B) (Q : B -> lstate -> Prop) st :
+  wp m (fun a st' => wp (f a) Q st') st -> wp (bind m f) Q st.
+Proof. unfold wp, bind. destruct (m st) as [[a st']| |]; auto. Qed.
+Lemma wp_ret {A} (a : A) (Q : A -> lstate -> Prop) st : Q a st -> wp (ret a) Q st.
+Proof. exact (fun H => H). Qed.
+Lemma wp_gets {A} (f : lstate -> A) (Q : A -> lstate -> Prop) st : Q (f st) st -> wp (gets f) Q st.
+Proof. exact (fun H => H). Qed.
+Lemma wp_modify f (Q : unit -> lstate -> Prop) st : Q tt (f st) -> wp (modify f) Q st.
+Proof. exact (fun H => H). Qed.
+Lemma wp_mono {A} (m : M A) (Q Q' : A -> lstate -> Prop) st :
+  wp m Q st -> (forall a st', Q a st' -> Q' a st') -> wp m Q' st.
+Proof. unfold wp. destruct (m st) as [[a st']| |]; auto. Qed.
+Lemma wp_elim {A} (m : M A) (Q : A -> lstate -> Prop) st : wp m Q st -> exists a st', m st = Ok (a, st') /\ Q a st'.
+Proof. unfold wp. destruct (m st) as [[a st']| |]; intros H; try contradiction. eauto. Qed.
+
+(* ------------------------------------------------------------------ state primitives, concretely *)
+(* the state after consume (fx_pos = true) of character [c], [r] being the rest *)
+Definition adv (st : lstate) (c : Z) (r : list Z) : lstate :=
+  let st1 := set_zip st (c :: pre st) r (cursor st + 1) in
+  if c =? 10 then set_curline st1 (cur_line st1 + 1) (cursor st1) else st1.
+Definition adv_eof (st : lstate) : lstate := set_zip st (pre st) [] (cursor st + 1).
+
+Lemma wp_consume st (Q : option Z -> lstate -> Prop) :
+  match post st with c :: r => Q (Some c) (adv st c r) | [] => Q None (adv_eof st) end ->
+  wp (consume true) Q st.
+Proof. unfold wp, consume, adv, adv_eof. destruct (post st); cbn [andb]; auto. Qed.
+
+Lemma pre_adv st c r : pre (adv st c r) = c :: pre st.
+Proof. unfold adv. destruct (c =? 10); reflexivity. Qed.
+Lemma post_adv st c r : post (adv st c r) = r.
+Proof. unfold adv. destruct (c =? 10); reflexivity. Qed.
+Lemma cursor_adv st c r : cursor (adv st c r) = cursor st + 1.
+Proof. unfold adv. destruct (c =? 10); reflexivity. Qed.
+Lemma len_adv st c r : len (adv st c r) = len st.
+Proof. unfold adv. destruct (c =? 10); reflexivity. Qed.
+Lemma indent_adv st c r : indent_stack (adv st c r) = indent_stack st.
+Proof. unfold adv. destruct (c =? 10); reflexivity. Qed.
+Lemma encl_adv st c r : encl (adv st c r) = encl st.
+Proof. unfold adv. destruct (c =? 10); reflexivity. Qed.
+Lemma prev_adv st c r : prev_kind (adv st c r) = prev_kind st.
+Proof. unfold adv. destruct (c =? 10); reflexivity. Qed.
+Lemma lineno_adv st c r : lineno (adv st c r) = lineno st.
+Proof. unfold adv. destruct (c =? 10); reflexivity. Qed.
+Lemma col_adv st c r : col (adv st c r) = col st.
+Proof. unfold adv. destruct (c =? 10); reflexivity. Qed.
+Lemma interpol_adv st c r : interpol (adv st c r) = interpol st.
+Proof. unfold adv. destruct (c =? 10); reflexivity. Qed.
+#[export] Hint Rewrite pre_adv post_adv cursor_adv len_adv indent_adv encl_adv prev_adv lineno_adv col_adv interpol_adv : st.
+
+Lemma pre_adv_eof st : pre (adv_eof st) = pre st. Proof. reflexivity. Qed.
+Lemma post_adv_eof st : post (adv_eof st) = []. Proof. reflexivity. Qed.
+Lemma cursor_adv_eof st : cursor (adv_eof st) = cursor st + 1. Proof. reflexivity. Qed.
+Lemma len_adv_eof st : len (adv_eof st) = len st. Proof. reflexivity. Qed.
+Lemma indent_adv_eof st : indent_stack (adv_eof st) = indent_stack st. Proof. reflexivity. Qed.
+Lemma encl_adv_eof st : encl (adv_eof st) = encl st. Proof. reflexivity. Qed.
+Lemma prev_adv_eof st : prev_kind (adv_eof st) = prev_kind st. Proof. reflexivity. Qed.
+Lemma lineno_adv_eof st : lineno (adv_eof st) = lineno st. Proof. reflexivity. Qed.
+Lemma col_adv_eof st : col (adv_eof st) = col st. Proof. reflexivity. Qed.
+Lemma interpol_adv_eof st : interpol (adv_eof st) = interpol st. Proof. reflexivity. Qed.
+#[export] Hint Rewrite pre_adv_eof post_adv_eof cursor_adv_eof len_adv_eof indent_adv_eof encl_adv_eof prev_adv_eof
+  lineno_adv_eof col_adv_eof interpol_adv_eof : st.
+
+Section WithSrc.
+Variable src : list Z.
+
+Record Inv (st : lstate) : Prop := {
+  inv_zip : rev (pre st) ++ post st = src;
+  inv_len : len st = zlen src;
+  inv_cur : zlen (pre st) <= cursor st;
+  inv_over : zlen (pre st) < cursor st -> post st = [];
+  inv_line : cur_line st = count_nl (pre st);
+  inv_head : line_head st = zlen (pre st) - since_nl (pre st);
+  inv_interpol : exists l, interpol st = l ++ [INot];
+  inv_indent : Forall (fun x => 0 <= x) (indent_stack st)
+}.
+
+Lemma Inv_init : forall s, s = src -> Inv (init s).
+Proof.
+  intros s ->. constructor; cbn; try reflexivity; try lia.
+  - exists []; reflexivity.
+  - constructor.
+Qed.
+
+Lemma Inv_pre_le st : Inv st -> zlen (pre st) + zlen (post st) = zlen src.
+Proof. intros I. rewrite <- (inv_zip _ I), zlen_app, zlen_rev. reflexivity. Qed.
+
+Lemma Inv_adv st c r : Inv st -> post st = c :: r -> Inv (adv st c r).
+Proof.
+  intros I E.
+  assert (Hc : cursor st = zlen (pre st)).
+  { pose proof (inv_cur _ I). destruct (Z.eq_dec (cursor st) (zlen (pre st))); [assumption|].
+    rewrite (inv_over _ I) in E by lia. discriminate. }
+  constructor; autorewrite with st.
+  - cbn [rev]. rewrite <- app_assoc. cbn [app]. rewrite <- E. apply (inv_zip _ I).
+  - apply (inv_len _ I).
+  - rewrite zlen_cons. lia.
+  - rewrite zlen_cons. lia.
+  - pose proof (inv_line _ I) as HL. unfold adv. cbn [count_nl].
+    destruct (c =? 10); cbn [cur_line set_curline set_zip]; lia.
+  - pose proof (inv_head _ I) as HH. unfold adv. cbn [since_nl]. rewrite zlen_cons.
+    destruct (c =? 10); cbn [line_head cursor set_curline set_zip]; lia.
+  - apply (inv_interpol _ I).
+  - apply (inv_indent _ I).
+Qed.
+
+Lemma Inv_adv_eof st : Inv st -> post st = [] -> Inv (adv_eof st).
+Proof.
+  intros I E. constructor; cbn; try apply I.
+  - rewrite <- E. apply I.
+  - pose proof (inv_cur _ I). lia.
+  - reflexivity.
+Qed.
+
+(** changes that do not touch the zipper, the line tracking or the interpolation stack *)
+Definition same_core (a b : lstate) : Prop :=
+  pre a = pre b /\ post a = post b /\ cursor a = cursor b /\ len a = len b /\
+  cur_line a = cur_line b /\ line_head a = line_head b /\ interpol a = interpol b /\
+  indent_stack a = indent_stack b.
+Lemma Inv_core a b : same_core a b -> Inv a -> Inv b.
+Proof.
+  intros (H1 & H2 & H3 & H4 & H5 & H6 & H7 & H8) I.
+  constructor; rewrite <- ?H1, <- ?H2, <- ?H3, <- ?H4, <- ?H5, <- ?H6, <- ?H7, <- ?H8; apply I.
+Qed.
+
+(** [frame st0 st]: since the token started (state [st0], just after sync) the token-start bookkeeping and
+    the indentation stack are untouched and input was only consumed *)
+Definition frame (st0 st : lstate) : Prop :=
+  lineno st = lineno st0 /\ col st = col st0 /\ indent_stack st = indent_stack st0 /\
+  zlen (post st) <= zlen (post st0) /\ prev_kind st = prev_kind st0.
+Definition Good (st0 st : lstate) : Prop := Inv st /\ frame st0 st.
+
+Lemma frame_refl st : frame st st.
+Proof. repeat split; lia. Qed.
+
+Lemma Good_adv st0 st c r : Good st0 st -> post st = c :: r -> Good st0 (adv st c r).
+Proof.
+  intros [I (F1 & F2 & F3 & F4 & F5)] E. split; [apply Inv_adv; assumption|].
+  repeat split; autorewrite with st; try assumption.
+  rewrite E, zlen_cons in F4. lia.
+Qed.
+Lemma Good_adv_eof st0 st : Good st0 st -> post st = [] -> Good st0 (adv_eof st).
+Proof.
+  intros [I (F1 & F2 & F3 & F4 & F5)] E. split; [apply Inv_adv_eof; assumption|].
+  repeat split; cbn [lineno col indent_stack post prev_kind adv_eof set_zip]; try assumption. apply zlen_nonneg.
+Qed.
+
+End WithSrc.
